@@ -44,6 +44,8 @@ type Engine struct {
 	ts        *TermStore
 	solver    *Solver // feasibility + verdict (z3 incremental)
 	verdict   *Solver // optional separate verdict solver
+	stackDecs  []Dec
+	rootPushed bool
 	byteConst [256]*Term
 }
 
@@ -85,8 +87,11 @@ type Path struct {
 	h      *HarnessRun
 	prefix []Dec
 	decs   []Dec
+	shared     int
+	rootShared bool
 	alts   [][]Dec
 	pc     []*Term
+	pcSet  map[int]bool
 
 	globals  map[*ssa.Global]Ptr
 	initDone map[*ssa.Package]bool
@@ -142,7 +147,29 @@ func (p *Path) addPC(t *Term) {
 		return
 	}
 	p.pc = append(p.pc, t)
-	p.e.solver.Assert(t)
+	if p.pcSet == nil {
+		p.pcSet = map[int]bool{}
+	}
+	p.pcSet[t.id] = true
+	if t.op == "and" {
+		for _, a := range t.args {
+			p.pcSet[a.id] = true
+		}
+	}
+	// solver level j holds what was asserted after j decisions; levels 0..shared are
+	// still on the solver's stack from the previous path of this worker
+	if len(p.decs) > p.shared || !p.rootShared {
+		p.e.solver.Assert(t)
+	}
+}
+
+// pushDec records a decision and opens the corresponding solver level.
+func (p *Path) pushDec(d Dec) {
+	p.decs = append(p.decs, d)
+	if len(p.decs) > p.shared {
+		p.e.solver.Push()
+		p.e.stackDecs = append(p.e.stackDecs, d)
+	}
 }
 
 // decide makes a free n-way choice (all alternatives feasible by construction).
@@ -153,14 +180,14 @@ func (p *Path) decide(n int, what string) int {
 	i := len(p.decs)
 	if i < len(p.prefix) {
 		d := p.prefix[i]
-		p.decs = append(p.decs, d)
+		p.pushDec(d)
 		return d.V
 	}
 	base := append([]Dec(nil), p.decs...)
 	for k := n - 1; k >= 1; k-- {
 		p.alts = append(p.alts, append(append([]Dec(nil), base...), Dec{V: k}))
 	}
-	p.decs = append(p.decs, Dec{V: 0})
+	p.pushDec(Dec{V: 0})
 	return 0
 }
 
@@ -172,10 +199,17 @@ func (p *Path) branchAux(c *Term, aux uint64) bool {
 		return c.u == 1
 	}
 	ts := p.e.ts
+	// a literal already on the path condition needs neither the solver nor a decision
+	if p.pcSet[c.id] {
+		return true
+	}
+	if p.pcSet[ts.Not(c).id] {
+		return false
+	}
 	i := len(p.decs)
 	if i < len(p.prefix) {
 		d := p.prefix[i]
-		p.decs = append(p.decs, d)
+		p.pushDec(d)
 		if d.V == 1 {
 			p.addPC(c)
 			return true
@@ -197,11 +231,11 @@ func (p *Path) branchAux(c *Term, aux uint64) bool {
 		if rf != "unsat" {
 			p.alts = append(p.alts, append(append([]Dec(nil), p.decs...), Dec{0, aux}))
 		}
-		p.decs = append(p.decs, Dec{1, aux})
+		p.pushDec(Dec{1, aux})
 		p.addPC(c)
 		return true
 	}
-	p.decs = append(p.decs, Dec{0, aux})
+	p.pushDec(Dec{0, aux})
 	p.addPC(ts.Not(c))
 	return false
 }
@@ -231,7 +265,7 @@ func (p *Path) assume(c *Term) {
 	i := len(p.decs)
 	if i < len(p.prefix) {
 		// feasibility was established when this prefix was first run
-		p.decs = append(p.decs, p.prefix[i])
+		p.pushDec(p.prefix[i])
 		p.addPC(c)
 		return
 	}
@@ -239,7 +273,7 @@ func (p *Path) assume(c *Term) {
 	if p.e.solver.CheckWith(c) == "unsat" {
 		panic(pathEnd{"infeasible", "assumption unsatisfiable"})
 	}
-	p.decs = append(p.decs, Dec{V: 1})
+	p.pushDec(Dec{V: 1})
 	p.addPC(c)
 }
 
@@ -335,7 +369,7 @@ func (p *Path) assertCond(id string, c *Term, pos string, msg string) {
 		return
 	}
 	p.h.countHit(id)
-	if c.IsTrue() {
+	if c.IsTrue() || p.pcSet[c.id] {
 		p.witness(id, nil)
 		p.h.countObligation(true)
 		return
@@ -406,6 +440,8 @@ type HarnessRun struct {
 	cond   *sync.Cond
 	work   [][]Dec
 	active int
+	waiting int
+	pending int
 
 	Paths        int
 	PathKinds    map[string]int
@@ -494,18 +530,27 @@ func (h *HarnessRun) explore(nworkers int) {
 					e.Close()
 				}
 			}()
+			var local [][]Dec // worker-local DFS stack: consecutive paths share long prefixes
 			for {
 				h.mu.Lock()
-				for len(h.work) == 0 && h.active > 0 && !h.stop {
-					h.cond.Wait()
+				var prefix []Dec
+				if len(local) > 0 && !h.stop {
+					prefix = local[len(local)-1]
+					local = local[:len(local)-1]
+				} else {
+					for len(h.work) == 0 && h.active > 0 && !h.stop {
+						h.waiting++
+						h.cond.Wait()
+						h.waiting--
+					}
+					if h.stop || (len(h.work) == 0 && h.active == 0) {
+						h.mu.Unlock()
+						h.cond.Broadcast()
+						return
+					}
+					prefix = h.work[len(h.work)-1]
+					h.work = h.work[:len(h.work)-1]
 				}
-				if h.stop || (len(h.work) == 0 && h.active == 0) {
-					h.mu.Unlock()
-					h.cond.Broadcast()
-					return
-				}
-				prefix := h.work[len(h.work)-1]
-				h.work = h.work[:len(h.work)-1]
 				h.active++
 				h.mu.Unlock()
 				if e == nil {
@@ -515,6 +560,9 @@ func (h *HarnessRun) explore(nworkers int) {
 				h.mu.Lock()
 				h.active--
 				h.Paths++
+				if os.Getenv("VERIF_PROGRESS") != "" && h.Paths%2000 == 0 {
+					fmt.Fprintf(os.Stderr, "  [%s] paths=%d pending=%d kinds=%v %.0fs\n", h.Name, h.Paths, len(h.work), h.PathKinds, time.Since(t0).Seconds())
+				}
 				h.PathKinds[res.Kind]++
 				h.Steps += int64(res.Steps)
 				for k, v := range p.encoded {
@@ -534,9 +582,15 @@ func (h *HarnessRun) explore(nworkers int) {
 						h.Inconclusive = append(h.Inconclusive, res.Kind+": "+res.Msg)
 					}
 				}
-				h.work = append(h.work, p.alts...)
-				if h.Paths >= h.cfg.MaxPaths && (len(h.work) > 0) {
-					h.Inconclusive = append(h.Inconclusive, fmt.Sprintf("path budget %d exhausted with %d prefixes pending", h.cfg.MaxPaths, len(h.work)))
+				local = append(local, p.alts...)
+				// feed idle workers with the oldest (shallowest) local prefixes
+				for h.waiting > len(h.work) && len(local) > 1 {
+					h.work = append(h.work, local[0])
+					local = local[1:]
+				}
+				h.pending += len(p.alts) - 1
+				if h.Paths >= h.cfg.MaxPaths && (len(h.work)+len(local) > 0) && !h.stop {
+					h.Inconclusive = append(h.Inconclusive, fmt.Sprintf("path budget %d exhausted with prefixes still pending", h.cfg.MaxPaths))
 					h.stop = true
 				}
 				h.mu.Unlock()
@@ -558,8 +612,23 @@ func (h *HarnessRun) runPath(e *Engine, prefix []Dec) (res PathResult, p *Path) 
 		wgs: map[Ptr]*wgState{}, ghost: map[string]Value{}, files: map[string]Value{},
 		done: make(chan struct{}),
 	}
-	e.solver.Push()
-	defer e.solver.Pop()
+	// reuse the solver's assertion stack for the decisions shared with the previous path
+	common := 0
+	if e.rootPushed {
+		for common < len(e.stackDecs) && common < len(prefix) && e.stackDecs[common] == prefix[common] {
+			common++
+		}
+		for len(e.stackDecs) > common {
+			e.solver.Pop()
+			e.stackDecs = e.stackDecs[:len(e.stackDecs)-1]
+		}
+		p.shared = common
+		p.rootShared = true
+	} else {
+		e.solver.Push()
+		e.rootPushed = true
+		e.stackDecs = e.stackDecs[:0]
+	}
 	main := p.newThread("main", h.fn, nil)
 	p.cur = main
 	p.startThread(main, true)
